@@ -2,6 +2,7 @@
 From Coq Require Import Permutation.
 From ZV.Common Require Import Base.
 From ZV.C10 Require Import Model Spec ProofsPow2 ProofsRing ProofsHist ProofsVec ProofsValVec ProofsFixed.
+From ZV.C10 Require Import ModelValVec32 ProofsValVec32 ModelCases.
 Open Scope N_scope.
 
 (* ensure_power_of_two (bit smearing) returns a power of two that is large enough, for every request up to 2^62 *)
@@ -197,3 +198,146 @@ Check fixed_clear_drops_each_once :
   forall (A : Type) n, 0 < n -> forall q (l : list A), F A n q l ->
   exists q', fixed_clear A n q = Ok (q', l) /\ F A n q' [] /\ forall j, fbuf q' j = None.
 Print Assumptions fixed_clear_drops_each_once.
+
+(* ===================== ValVec32<T> at element level (ModelValVec32.v) ===================== *)
+
+(* valvec32_refines_list: for every element type, every requested capacity c and every capacity `usable` >= c the
+   allocator hands out, and every history of push/push_panic/pop/get/set/clear/extend_from_slice/
+   extend_from_slice_copy/push_n_copy/reserve (no bound on its length or on the slice lengths), the model never
+   accesses a slot outside the allocation or an uninitialised slot (no UB), returns what a Vec bounded by
+   u32::MAX returns - Err exactly for a push at len = u32::MAX, an extend/push_n/reserve whose resulting length
+   would exceed u32::MAX and a set past the end - destroys what a Vec destroys (the old element of set, the
+   refused value, the elements of clear), and ends holding the Vec's sequence with len <= capacity <= u32::MAX *)
+Theorem valvec32_refines_list :
+  forall (A : Type) c usable (ops : list (wop A)), c <= usable -> c <= MAX_CAPACITY ->
+  exists v', vv32_run A (vv_with_capacity A c usable) ops = Ok (v', snd (vec32_run A [] ops)) /\
+             W A v' (fst (vec32_run A [] ops)).
+Proof. exact ProofsValVec32.valvec32_refines_list_proof. Qed.
+Check valvec32_refines_list :
+  forall (A : Type) c usable (ops : list (wop A)), c <= usable -> c <= MAX_CAPACITY ->
+  exists v', vv32_run A (vv_with_capacity A c usable) ops = Ok (v', snd (vec32_run A [] ops)) /\
+             W A v' (fst (vec32_run A [] ops)).
+Print Assumptions valvec32_refines_list.
+
+(* valvec32_exactly_once: over a whole history followed by Drop, the elements handed to the vector (pushed, set,
+   cloned from an accepted slice) are - as a multiset - exactly the elements handed back (pop) plus the elements
+   destroyed (old element of set, refused values, clear, Drop); no UB, and no initialised slot is left in the
+   buffer that is freed *)
+Theorem valvec32_exactly_once :
+  forall (A : Type) c usable (ops : list (wop A)), c <= usable -> c <= MAX_CAPACITY ->
+  exists v' outs v'' d,
+    vv32_run A (vv_with_capacity A c usable) ops = Ok (v', outs) /\
+    vv32_drop A v' = Ok (v'', d) /\
+    Permutation (whistory_in A ops outs) (whistory_out A ops outs ++ d) /\
+    (forall j, wbuf v'' j = None).
+Proof. exact ProofsValVec32.valvec32_exactly_once_proof. Qed.
+Check valvec32_exactly_once :
+  forall (A : Type) c usable (ops : list (wop A)), c <= usable -> c <= MAX_CAPACITY ->
+  exists v' outs v'' d,
+    vv32_run A (vv_with_capacity A c usable) ops = Ok (v', outs) /\
+    vv32_drop A v' = Ok (v'', d) /\
+    Permutation (whistory_in A ops outs) (whistory_out A ops outs ++ d) /\
+    (forall j, wbuf v'' j = None).
+Print Assumptions valvec32_exactly_once.
+
+(* Clone holds the same sequence, whatever capacity >= len the allocator hands out *)
+Theorem valvec32_clone_same_sequence :
+  forall (A : Type) v (l : list A) usable, W A v l -> N.of_nat (length l) <= usable ->
+  exists v', vv32_clone A v usable = Ok v' /\ W A v' l.
+Proof. exact ProofsValVec32.W_clone. Qed.
+Check valvec32_clone_same_sequence :
+  forall (A : Type) v (l : list A) usable, W A v l -> N.of_nat (length l) <= usable ->
+  exists v', vv32_clone A v usable = Ok v' /\ W A v' l.
+Print Assumptions valvec32_clone_same_sequence.
+
+(* clear()/Drop destroys exactly the held sequence, each element once, and leaves no initialised slot *)
+Theorem valvec32_clear_drops_each_once :
+  forall (A : Type) v (l : list A), W A v l ->
+  exists v', vv32_clear A v = Ok (v', l) /\ W A v' [] /\ forall j, wbuf v' j = None.
+Proof. exact ProofsValVec32.W_clear. Qed.
+Check valvec32_clear_drops_each_once :
+  forall (A : Type) v (l : list A), W A v l ->
+  exists v', vv32_clear A v = Ok (v', l) /\ W A v' [] /\ forall j, wbuf v' j = None.
+Print Assumptions valvec32_clear_drops_each_once.
+
+(* the element-level model grows by exactly the capacity arithmetic of valvec32_reserve_capacity /
+   valvec32_push_capacity (golden-ratio growth, refusal at u32::MAX) *)
+Theorem valvec32_capacity_agrees :
+  forall (A : Type) (v : vv32 A) n x, wlen v <= wcap v ->
+  match vv32_reserve A v n, vv_reserve (wlen v) (wcap v) n with
+  | Some v1, Some c => wcap v1 = c
+  | None, None => True
+  | _, _ => False
+  end /\
+  match vv32_push A v x, vv_push_cap (wlen v) (wcap v) with
+  | Ok (v1, (RUnit, _)), Some c => wcap v1 = c
+  | Ok (_, (RErr, _)), None => True
+  | _, _ => False
+  end.
+Proof. exact ProofsValVec32.valvec32_capacity_agrees_proof. Qed.
+Check valvec32_capacity_agrees :
+  forall (A : Type) (v : vv32 A) n x, wlen v <= wcap v ->
+  match vv32_reserve A v n, vv_reserve (wlen v) (wcap v) n with
+  | Some v1, Some c => wcap v1 = c
+  | None, None => True
+  | _, _ => False
+  end /\
+  match vv32_push A v x, vv_push_cap (wlen v) (wcap v) with
+  | Ok (v1, (RUnit, _)), Some c => wcap v1 = c
+  | Ok (_, (RErr, _)), None => True
+  | _, _ => False
+  end.
+Print Assumptions valvec32_capacity_agrees.
+
+(* fixed finding (commit 6bed45f): set() stored with ptr::write, the old element was never destroyed:
+   push 1, set(0, 2), Drop: elements 1 and 2 were handed in, only 2 is ever destroyed.  With the assignment
+   (`*ptr = value`) both are *)
+Theorem valvec32_set_leak_refuted :
+  let ops := [WPush 1; WSet 0 2] in
+  match vv32_run_with N true false vv_new ops with
+  | Ok (v, outs) => match vv32_drop N v with
+                    | Ok (_, d) => whistory_in N ops outs = [1; 2] /\ whistory_out N ops outs ++ d = [2]
+                    | UB => False
+                    end
+  | UB => False
+  end /\
+  match vv32_run N vv_new ops with
+  | Ok (v, outs) => match vv32_drop N v with
+                    | Ok (_, d) => whistory_in N ops outs = [1; 2] /\ whistory_out N ops outs ++ d = [1; 2]
+                    | UB => False
+                    end
+  | UB => False
+  end.
+Proof. exact ProofsValVec32.valvec32_set_leak_refuted_proof. Qed.
+Check valvec32_set_leak_refuted :
+  let ops := [WPush 1; WSet 0 2] in
+  match vv32_run_with N true false vv_new ops with
+  | Ok (v, outs) => match vv32_drop N v with
+                    | Ok (_, d) => whistory_in N ops outs = [1; 2] /\ whistory_out N ops outs ++ d = [2]
+                    | UB => False
+                    end
+  | UB => False
+  end /\
+  match vv32_run N vv_new ops with
+  | Ok (v, outs) => match vv32_drop N v with
+                    | Ok (_, d) => whistory_in N ops outs = [1; 2] /\ whistory_out N ops outs ++ d = [1; 2]
+                    | UB => False
+                    end
+  | UB => False
+  end.
+Print Assumptions valvec32_set_leak_refuted.
+
+(* fixed finding: extend_from_slice(_copy) converted slice.len() with `as u32`.  For a slice of 2^32 elements the
+   converted length is 0, nothing is reserved, and the first element is written outside the allocation (UB; on
+   the real code: extend_from_slice_copy of 2^32+3 bytes into a ValVec32<u8> is a heap overflow, and of 2^32+3
+   zero-sized elements returns Ok with len 3).  With u32::try_from the call is refused *)
+Theorem valvec32_extend_truncation_refuted :
+  let big := repeat 0 (N.to_nat 4294967296) in
+  vv32_run_with N false true vv_new [WExtend big] = UB /\
+  vv32_run N vv_new [WExtend big] = Ok (vv_new, [(RErr, [])]).
+Proof. exact ProofsValVec32.valvec32_extend_truncation_refuted_proof. Qed.
+Check valvec32_extend_truncation_refuted :
+  let big := repeat 0 (N.to_nat 4294967296) in
+  vv32_run_with N false true vv_new [WExtend big] = UB /\
+  vv32_run N vv_new [WExtend big] = Ok (vv_new, [(RErr, [])]).
+Print Assumptions valvec32_extend_truncation_refuted.
